@@ -95,6 +95,11 @@ StepOf(x) ==
                 \o FailIf(Same(x.val, v) /\ (x.rrc # 0 \/ (HasField(x, "re") /\ ~SameMeaning(ValOf(x.re), v))), "C07", "the recomposed text is not a URI reference, or reads back with a different scheme, authority, path text, query or fragment")
                 \o FailIf(Same(x.val, v) /\ x.rrc = 0 /\ HasField(x, "re") /\ SameMeaning(ValOf(x.re), v) /\ ~Equal(ValOf(x.re), v), "C11", "reads back with the same text but a different structure"),
                 st)
+    [] x.e = "SEquals" ->
+         IF ~(CanObserve(st, x.a) /\ CanObserve(st, x.b)) THEN R(HarnessErr("compared a slot that is not usable"), st)
+         ELSE IF x.fault # 0 THEN R(FaultFail(x), st)
+         ELSE R(PreCheck(x.prea, x.a) \o PreCheck(x.preb, x.b)
+                \o V([e |-> "Equals", a |-> x.prea, b |-> x.preb, res |-> x.res, rev |-> x.rev, ro |-> x.ro, lib |-> TRUE, ta |-> x.ta, tb |-> x.tb]), st)
     [] x.e = "SEnd" -> R(FailIf(x.leak # 0 \/ x.bad, "C13", "blocks of the session's manager outstanding after every URI was freed (or a bad release)"), st)
     [] x.e = "SSkip" -> R(HarnessErr("the driver attempted an action its own mirror did not enable"), st)
     [] OTHER -> R(HarnessErr("unknown event"), st)
